@@ -85,13 +85,16 @@ func runScripts(args []string) error {
 		for i := range scripts {
 			switch {
 			case finished[i]:
+				if i > 0 && i%200 == 0 {
+					lg.Emit(map[string]any{"op": "world", "run": 0, "part": i / 200}) // section mark, no model effect
+				}
 				lg.EmitAll(results[i])
 			case !started[i].IsZero():
 				head := map[string]any{"op": "obj", "run": i + 1, "kind": scripts[i].Kind, "obj": scripts[i].Obj, "reads": nonNil(scripts[i].Reads)}
 				if scripts[i].hasFed {
 					head["fed"] = nonNil(scripts[i].Fed)
 				}
-				lg.EmitAll([]map[string]any{head, {"op": "end", "run": i + 1, "calls": 0, "hung": true, "reason": reason}})
+				lg.EmitAll([]map[string]any{head, {"op": "end", "run": i + 1, "calls": 0, "nreads": len(scripts[i].Reads), "hung": true, "reason": reason}})
 			default:
 				notrun++
 			}
@@ -164,7 +167,7 @@ func runOne(run int, s script) []map[string]any {
 		head["fed"] = nonNil(s.Fed)
 	}
 	evs := []map[string]any{head}
-	end := map[string]any{"op": "end", "run": run}
+	end := map[string]any{"op": "end", "run": run, "nreads": len(s.Reads)}
 
 	var emitted []byte
 	calls := 0
